@@ -206,7 +206,7 @@ def run(sh, spec):
                     if sl and k % sl[1] != sl[0]:
                         continue
                     check_string(sh, mon, StringArgs, s)
-            sh.sample({"kind": "string", "string": "a 'b\\' c' \"d\" \\"})
+            sh.sample({"kind": "string", "string": "a '\\\"", "note": "one of the enumerated strings of length 5"} if spec["maxlen"] >= 5 else {"kind": "string", "string": ""})
         elif part == "tokens":
             rng = sh.rng
             for i in range(spec["n"]):
